@@ -19,6 +19,8 @@ pub enum Step {
     OpenReader,
     CloseReader(usize),
     Writer(TxScript),
+    /// a write transaction during which (after its last operation, before its commit / drop) a reader opens
+    WriterWithReaderInFlight(TxScript),
 }
 
 #[derive(Clone, Debug, Serialize, Deserialize)]
@@ -50,6 +52,7 @@ pub struct St {
     pub max_reader_age_commits: u64,
     pub readers_opened: u64,
     pub readers_sharing_a_snapshot: u64,
+    pub readers_opened_while_a_writer_was_in_flight: u64,
 }
 
 thread_local! {
@@ -100,7 +103,12 @@ pub fn gen_case(rng: &mut Rng, ps: u64, steps: usize, k: usize) -> Case {
             if script.end == End::Commit {
                 committed = work;
             }
-            out.push(Step::Writer(script));
+            if open < k && rng.chance(1, 6) {
+                out.push(Step::WriterWithReaderInFlight(script));
+                open += 1;
+            } else {
+                out.push(Step::Writer(script));
+            }
         }
     }
     Case {
@@ -129,7 +137,7 @@ pub fn run_case(c: &Case, path: &std::path::Path, st: &mut St) -> Result<Vec<(St
     let mut committed = MBucket::default();
     let mut n_commits: u64 = 0;
     let r = util::catch(|| -> Result<(), String> {
-        let mut readers: Vec<Reader> = Vec::new();
+        let readers: std::cell::RefCell<Vec<Reader>> = std::cell::RefCell::new(Vec::new());
         let mut hwm_bytes = 4 * ps;
         for (si, step) in c.steps.iter().enumerate() {
             st.steps += 1;
@@ -147,21 +155,22 @@ pub fn run_case(c: &Case, path: &std::path::Path, st: &mut St) -> Result<Vec<(St
                             ));
                         }
                     }
-                    if readers.iter().any(|r| r.born == n_commits) {
+                    if readers.borrow().iter().any(|r| r.born == n_commits) {
                         st.readers_sharing_a_snapshot += 1;
                     }
-                    readers.push(Reader { tx, snap: committed.clone(), pinned, born: n_commits });
+                    readers.borrow_mut().push(Reader { tx, snap: committed.clone(), pinned, born: n_commits });
                     st.readers_opened += 1;
-                    st.max_readers = st.max_readers.max(readers.len() as u64);
+                    st.max_readers = st.max_readers.max(readers.borrow().len() as u64);
                 }
                 Step::CloseReader(i) => {
-                    if *i < readers.len() {
-                        let r = readers.remove(*i);
+                    if *i < readers.borrow().len() {
+                        let r = readers.borrow_mut().remove(*i);
                         st.max_reader_age_commits = st.max_reader_age_commits.max(n_commits - r.born);
                         drop(r);
                     }
                 }
-                Step::Writer(script) => {
+                Step::Writer(script) | Step::WriterWithReaderInFlight(script) => {
+                    let in_flight = matches!(step, Step::WriterWithReaderInFlight(_));
                     // what the next writer may allocate: its private free set right after begin
                     {
                         let probe = db.tx(true).map_err(|e| e.to_string())?;
@@ -178,7 +187,7 @@ pub fn run_case(c: &Case, path: &std::path::Path, st: &mut St) -> Result<Vec<(St
                                 ));
                             }
                         }
-                        for r in &readers {
+                        for r in readers.borrow().iter() {
                             if let Some(pin) = &r.pinned {
                                 st.invariant_evals += 1;
                                 if let Some(p) = pin.reach.intersection(&free).next() {
@@ -191,8 +200,29 @@ pub fn run_case(c: &Case, path: &std::path::Path, st: &mut St) -> Result<Vec<(St
                         }
                     }
                     let before = snap::read_prefix(path, hwm_bytes);
-                    FORBID_GROW.with(|f| f.set(!readers.is_empty()));
-                    exec::exec_tx(&mut run, &db, path, script, si, &mut committed);
+                    FORBID_GROW.with(|f| f.set(!readers.borrow().is_empty() || in_flight));
+                    if in_flight {
+                        // the reader opens while the writer is still open: it must see (and keep) the state before this writer
+                        let snap_before = committed.clone();
+                        let born = n_commits;
+                        let img = snap::read_prefix(path, hwm_bytes);
+                        let pinned = snap::pin_newest(&img, ps);
+                        let opened = std::cell::Cell::new(false);
+                        let open_reader = || {
+                            if let Ok(tx) = db.tx(false) {
+                                readers.borrow_mut().push(Reader { tx, snap: snap_before.clone(), pinned: pinned.clone(), born });
+                                opened.set(true);
+                            }
+                        };
+                        exec::exec_tx_mid(&mut run, &db, path, script, si, &mut committed, Some(&open_reader));
+                        if opened.get() {
+                            st.readers_opened += 1;
+                            st.readers_opened_while_a_writer_was_in_flight += 1;
+                            st.max_readers = st.max_readers.max(readers.borrow().len() as u64);
+                        }
+                    } else {
+                        exec::exec_tx(&mut run, &db, path, script, si, &mut committed);
+                    }
                     FORBID_GROW.with(|f| f.set(false));
                     if run.out.aborted {
                         return Err(format!(
@@ -224,11 +254,11 @@ pub fn run_case(c: &Case, path: &std::path::Path, st: &mut St) -> Result<Vec<(St
                         }
                     }
                     st.pages_rewritten_below_hwm += rewritten;
-                    if !readers.is_empty() {
+                    if !readers.borrow().is_empty() {
                         st.pages_rewritten_while_reader_open += rewritten;
                     }
                     // copy-on-write rule: no byte of a pinned snapshot may change
-                    for r in &readers {
+                    for r in readers.borrow().iter() {
                         if let Some(pin) = &r.pinned {
                             st.pinned_rehashes += 1;
                             if snap::rehash(&after, ps, pin) != pin.hash {
@@ -242,7 +272,7 @@ pub fn run_case(c: &Case, path: &std::path::Path, st: &mut St) -> Result<Vec<(St
                 }
             }
             // every open reader must still see exactly its snapshot
-            for r in &readers {
+            for r in readers.borrow().iter() {
                 st.reader_verifications += 1;
                 if let Some(d) = exec::verify_tx_against(&r.tx, &r.snap, true) {
                     viol.push((
@@ -256,7 +286,7 @@ pub fn run_case(c: &Case, path: &std::path::Path, st: &mut St) -> Result<Vec<(St
                 return Ok(());
             }
         }
-        for r in readers.drain(..) {
+        for r in readers.borrow_mut().drain(..) {
             st.max_reader_age_commits = st.max_reader_age_commits.max(n_commits - r.born);
         }
         Ok(())
@@ -325,6 +355,7 @@ pub fn run(ctx: &Ctx) -> Shard {
                     Step::OpenReader => "open-reader".to_string(),
                     Step::CloseReader(i) => format!("close-reader#{}", i),
                     Step::Writer(t) => format!("writer({} ops,{:?})", t.ops.len(), t.end),
+                    Step::WriterWithReaderInFlight(t) => format!("writer({} ops,{:?})+reader-opens-before-it-ends", t.ops.len(), t.end),
                 })
                 .collect();
             shard.sample(serde_json::json!({"origin": c.origin, "pagesize": c.pagesize, "first_steps": kinds}));
@@ -336,6 +367,7 @@ pub fn run(ctx: &Ctx) -> Shard {
     shard.count("max_reader_age_in_commits", st.max_reader_age_commits);
     shard.count("readers_opened", st.readers_opened);
     shard.count("readers_sharing_a_snapshot_with_another", st.readers_sharing_a_snapshot);
+    shard.count("readers_opened_while_a_writer_was_in_flight", st.readers_opened_while_a_writer_was_in_flight);
     shard.count("full_reader_verifications", st.reader_verifications);
     shard.count("free_set_invariant_evaluations", st.invariant_evals);
     shard.count("pinned_snapshot_rehashes", st.pinned_rehashes);
